@@ -12,6 +12,10 @@
 (*   <<"neg",d>> <<"not",d>> <<"shl",d,c>> <<"shr",d,c>> <<"sar",d,c>>      (count in CL, masked mod 32 by CPU)  *)
 (*   <<"xorself",d>>  (xor d,d)                                                                                *)
 (*   <<"jcc",cc,a,b,L>> <<"jcci",cc,a,imm,L>> <<"jmp",L>> <<"label",L>> <<"jtab",v,<<L1..L4>>>>                  *)
+(*   <<"jtabx",v,<<L1..L4>>,form,ann>>  indirect jump through a table of ABSOLUTE label addresses, requires v < 4;   *)
+(*        form = operand shape of the jump: "reg" jmp r | "mb" jmp [b] | "mbi" jmp [b+v*W] | "mbid" jmp [b+v*W+16]   *)
+(*        | "mli" jmp [table+v*W] (x86-32) | "mstk" (table built on the stack);  b = table base held in a register  *)
+(*        that is loaded at function entry, v is used directly as the index;  ann = JumpAnnotation given or not      *)
 (*   <<"setcc",cc,a,b,d>>  (writes the low byte of d only)      <<"cmov",cc,a,b,d,s>>                           *)
 (*   <<"div",hi,lo,dv>> <<"idiv",hi,lo,dv>>  (edx:eax / dv; requires hi = 0, dv # 0)   <<"mul",hi,lo,s>>         *)
 (*   <<"xchg",a,b>> <<"cmpxchg",d,s,acc>>                                                                        *)
@@ -66,7 +70,7 @@ RegsOf(I) ==
     [] op \in {"mov", "add", "sub", "imul", "and", "or", "xor", "shl", "shr", "sar", "xchg", "sstx", "sldx"} -> <<I[2], I[3]>>
     [] op = "jcc" -> <<I[3], I[4]>>
     [] op = "jcci" -> <<I[3]>>
-    [] op = "jtab" -> <<I[2]>>
+    [] op \in {"jtab", "jtabx"} -> <<I[2]>>
     [] op = "setcc" -> <<I[3], I[4], I[5]>>
     [] op = "cmov" -> <<I[3], I[4], I[5], I[6]>>
     [] op \in {"div", "idiv", "mul", "cmpxchg", "call1"} -> <<I[2], I[3], I[4]>>
@@ -158,7 +162,7 @@ Reads(I) ==
     [] op \in {"add", "sub", "imul", "and", "or", "xor", "shl", "shr", "sar", "xchg"} -> {I[2], I[3]}
     [] op = "jcc" -> {I[3], I[4]}
     [] op = "jcci" -> {I[3]}
-    [] op = "jtab" -> {I[2]}
+    [] op \in {"jtab", "jtabx"} -> {I[2]}
     [] op = "setcc" -> {I[3], I[4], I[5]}
     [] op = "cmov" -> {I[3], I[4], I[5], I[6]}
     [] op \in {"div", "idiv"} -> {I[2], I[3], I[4]}
@@ -201,6 +205,7 @@ WellDefinedAt(m, I) ==
   /\ (I[1] = "mul" => Cardinality({I[2], I[3], I[4]}) = 3)
   /\ (I[1] = "cmpxchg" => Cardinality({I[2], I[3], I[4]}) = 3)
   /\ (I[1] = "xchg" => I[2] # I[3])
+  /\ (I[1] = "jtabx" => m.r[I[2]] < 4)
   /\ (I[1] \in {"shl", "shr", "sar"} => I[2] # I[3])
   /\ (I[1] = "st" => I[2] \in 0..(NOUT - 1))
   /\ (I[1] = "ld" => I[3] \in 0..(NOUT - 1))
@@ -240,7 +245,7 @@ Exec(prog, m) ==
     [] op = "jmp"  -> [m1 EXCEPT !.pc = LabelPos(prog, I[2])]
     [] op = "jcc"  -> [m1 EXCEPT !.pc = IF Cond(I[2], r[I[3]], r[I[4]]) THEN LabelPos(prog, I[5]) ELSE @ + 1]
     [] op = "jcci" -> [m1 EXCEPT !.pc = IF Cond(I[2], r[I[3]], I[4]) THEN LabelPos(prog, I[5]) ELSE @ + 1]
-    [] op = "jtab" -> [m1 EXCEPT !.pc = LabelPos(prog, I[3][(r[I[2]] % 4) + 1])]
+    [] op \in {"jtab", "jtabx"} -> [m1 EXCEPT !.pc = LabelPos(prog, I[3][(r[I[2]] % 4) + 1])]
     [] op = "setcc" -> Set(m1, I[5], (r[I[5]] \div 256) * 256 + (IF Cond(I[2], r[I[3]], r[I[4]]) THEN 1 ELSE 0))
     [] op = "cmov" -> Set(m1, I[5], IF Cond(I[2], r[I[3]], r[I[4]]) THEN r[I[6]] ELSE r[I[5]])
     [] op \in {"div", "idiv"} ->
